@@ -61,9 +61,33 @@ fn truncated_end(s: &mut Session, rng: &mut Rng) {
     }
 }
 
+/// more associations than the client keeps at once, through a protocol whose datagrams travel inside a connection: the
+/// association that is evicted gives its connection (and with it the server's flow) back
+fn evicted_associations(s: &mut Session, rng: &mut Rng) {
+    for base in protocol_ciphers(rng) {
+        if !(base.protocol == "vmess" && base.cipher == "aes-128-gcm") {
+            continue;
+        }
+        let mut cfg = base.with("tcp");
+        cfg.udp = true;
+        s.begin_case(&format!("evicted-associations:{}", cfg.label()));
+        let Some(w) = cfg.start(s, false, 4) else { continue };
+        let r = s.run(&format!("e2e.udpbind {} n=70", w));
+        let links: usize = field(&r, "links").parse().unwrap_or(usize::MAX);
+        if field(&r, "answered") != "70" {
+            s.oracle_fail("evicted-associations", &format!("70 associations one after the other: not every one was answered: `{}`", r));
+        } else if links > 64 {
+            s.oracle_fail("evicted-associations", &format!("70 associations through a client that keeps 64: {} connections towards the server are still open — an evicted association kept its connection", links));
+        }
+        s.run(&format!("e2e.stop {}", w));
+        s.mark_nontrivial();
+    }
+}
+
 pub fn generate(s: &mut Session, tier: &str, rng: &mut Rng) {
     let thorough = tier == "thorough";
     truncated_end(s, rng);
+    evicted_associations(s, rng);
     let mut transports = vec!["tcp", "ws"];
     if tls_available() {
         transports.extend(["tls", "wss", "quic"]);
